@@ -70,37 +70,47 @@ def checkHandler : Handler CS where
     | f :: more => [s!"prop check=FAIL sig={f} more={more.length}"]
 
 structure RS where
-  sys : Sys := {}
+  t : Timed := {}
+  gs : Int := 3600000000000
+  gh : Int := 3600000000000
+  ci : Int := 1000000000
   -- oracle: users = starts − successful shutdowns, from the implementation's observations
   users : Int := 0
   lastOp : String := ""
   /-- the mode the implementation showed last (after the previous tick window / op) -/
   implRefuse : Bool := false
+  winLen : Int := 0
   fails : List String := []
 
-/-- the checker of the ref-count harness: 100 MiB / 20 MiB, GC never due (both intervals 1 h) -/
+/-- the checker of the ref-count harness: 100 MiB / 20 MiB (GC intervals and check interval come with `op rccfg`) -/
 def rcChecker : Checker := ⟨104857600, 20971520⟩
-def rcGC : Int := 3600000000000
 
 def rcHandler : Handler RS where
   init := {}
   onOp := fun s toks =>
     match toks with
-    | ["start"] =>
-      let (_, err) := s.sys.rc.step .start
-      let sys := s.sys.step rcChecker rcGC rcGC .start
-      ({ s with sys := sys, lastOp := "start" }, [s!"obs rc err={b01 err}", s!"obs mode refuse={b01 sys.st.mustRefuse} meas=0"])
-    | ["shutdown"] =>
-      let (_, err) := s.sys.rc.step .shutdown
-      let sys := s.sys.step rcChecker rcGC rcGC .shutdown
-      ({ s with sys := sys, lastOp := "shutdown" }, [s!"obs rc err={b01 err}", s!"obs mode refuse={b01 sys.st.mustRefuse} meas=0"])
+    | "rccfg" :: t =>
+      match kvInt t "gs", kvInt t "gh", kvInt t "ci" with
+      | some gs, some gh, some ci => ({ s with gs := gs, gh := gh, ci := ci }, [])
+      | _, _, _ => (s, ["obs bad-op"])
+    | "start" :: t =>
+      match kvInt t "now" with
+      | some now =>
+        let (_, err) := s.t.sys.rc.step .start
+        let t' := s.t.start rcChecker s.gs s.gh now
+        ({ s with t := t', lastOp := "start" }, [s!"obs rc err={b01 err}", s!"obs mode refuse={b01 t'.sys.st.mustRefuse} meas=0"])
+      | none => (s, ["obs bad-op"])
+    | "shutdown" :: _ =>
+      let (_, err) := s.t.sys.rc.step .shutdown
+      let t' := s.t.shutdown rcChecker s.gs s.gh
+      ({ s with t := t', lastOp := "shutdown" }, [s!"obs rc err={b01 err}", s!"obs mode refuse={b01 t'.sys.st.mustRefuse} meas=0"])
     | "tick" :: t =>
-      match kvNat t "r", kvInt t "now" with
-      | some r, some now =>
-        let checking := s.sys.rc.checking
-        let sys := s.sys.step rcChecker rcGC rcGC (.tick { now := now, alloc := r, allocAfterGC := r })
-        ({ s with sys := sys, lastOp := "tick" }, [s!"obs tick checked={b01 checking} refuse={b01 sys.st.mustRefuse}"])
-      | _, _ => (s, ["obs bad-op"])
+      match kvInt t "a", kvInt t "b", kvNat t "r", kvNat t "g" with
+      | some a, some b, some r, some g =>
+        let w := s.t.window rcChecker s.gs s.gh s.ci a b r g
+        ({ s with t := w.t, lastOp := "tick", winLen := b - a },
+         [s!"obs tick checks={w.checks} reads={w.checks + w.gcs} gcs={w.gcs} refuse={b01 w.t.sys.st.mustRefuse}"])
+      | _, _, _, _ => (s, ["obs bad-op"])
     | _ => (s, ["obs bad-op"])
   onObs := fun s toks =>
     match toks with
@@ -110,9 +120,12 @@ def rcHandler : Handler RS where
         let users := if s.lastOp = "start" then s.users + 1 else if err then s.users else s.users - 1
         { s with users := users, fails := s.fails ++ checkRC s.users s.lastOp err false }
       | none => { s with fails := s.fails ++ ["C18/refcount/unparsable"] }
-    | [_, "tick", c, rf] =>
-      match kvBool [c] "checked", kvBool [rf] "refuse" with
-      | some checked, some refuse => { s with implRefuse := refuse, fails := s.fails ++ checkRC s.users "tick" false checked }
+    | [_, "tick", c, _, _, rf] =>
+      match kvNat [c] "checks", kvBool [rf] "refuse" with
+      | some checks, some refuse =>
+        -- a window of at least one check interval must contain a check while a user is present
+        let f := if s.winLen ≥ s.ci || checks > 0 then checkRC s.users "tick" false (decide (checks > 0)) else []
+        { s with implRefuse := refuse, fails := s.fails ++ f }
       | _, _ => { s with fails := s.fails ++ ["C18/refcount/unparsable"] }
     | [_, "mode", rf, m] =>
       -- the mode right after a start / shutdown, before any time passes: it may only differ from the last one if a reading was taken
